@@ -40,6 +40,9 @@ impl InstructionGenerator {
         for (case_block_index, case_block) in case_blocks.into_iter().enumerate() {
             // mark the beginning of this case block
             self.label(&labels::case_block(case_block_index), pos);
+            // to be able to RESUME after an error in an expression of this CASE
+            // (the previous mark is followed by the jump out of the SELECT)
+            self.mark_statement_address();
             // where to jump out from here if the case block isn't matching
             let next_case_label =
                 labels::next_case_label(case_blocks_len, has_else, case_block_index);
